@@ -220,6 +220,7 @@ func (l *CertificateLint) CheckEffective(c *x509.Certificate) bool {
 // CheckEffective()
 // Execute()
 func (l *CertificateLint) Execute(cert *x509.Certificate, config Configuration) (result *LintResult) {
+	defer verifObserve(&l.LintMetadata, cert, config, &result)
 	defer func() {
 		if err := recover(); err != nil {
 			details := fmt.Sprintf("'%s' panicked. Error: %v", l.Name, err)
